@@ -330,6 +330,45 @@ func (s *BaseNodeService) verifyMessage(fsmInstance *state_machines.FSMInstance,
 	return nil
 }
 
+// checkSenderIsClaimedParticipant makes sure that the participant id named in
+// a request is the id registered in the round for the (authenticated) sender of
+// the message, so that no participant can contribute in another one's name.
+func checkSenderIsClaimedParticipant(fsmInstance *state_machines.FSMInstance, sender string, fsmReq interface{}) error {
+	var claimedID int
+	switch req := fsmReq.(type) {
+	case requests.SignatureProposalParticipantRequest:
+		claimedID = req.ParticipantId
+	case requests.DKGProposalCommitConfirmationRequest:
+		claimedID = req.ParticipantId
+	case requests.DKGProposalDealConfirmationRequest:
+		claimedID = req.ParticipantId
+	case requests.DKGProposalResponseConfirmationRequest:
+		claimedID = req.ParticipantId
+	case requests.DKGProposalMasterKeyConfirmationRequest:
+		claimedID = req.ParticipantId
+	case requests.DKGProposalConfirmationErrorRequest:
+		claimedID = req.ParticipantId
+	case requests.SigningBatchProposalStartRequest:
+		claimedID = req.ParticipantId
+	case requests.SigningProposalBatchPartialSignRequests:
+		claimedID = req.ParticipantId
+	case requests.SignatureProposalConfirmationErrorRequest:
+		claimedID = req.ParticipantId
+	default:
+		return nil
+	}
+
+	senderID, err := fsmInstance.GetIDByUsername(sender)
+	if err != nil {
+		return fmt.Errorf("failed to GetIDByUsername: %w", err)
+	}
+	if senderID != claimedID {
+		return fmt.Errorf("sender %s is participant #%d, but the message speaks for participant #%d", sender, senderID, claimedID)
+	}
+
+	return nil
+}
+
 func (s *BaseNodeService) StartDKG(dto *dto.StartDkgDTO) error {
 	dkgRoundID := sha256.Sum256(dto.Payload)
 	message, err := s.buildMessage(hex.EncodeToString(dkgRoundID[:]), spf.EventInitProposal, dto.Payload)
@@ -766,6 +805,14 @@ func (s *BaseNodeService) processMessage(message storage.Message) (*types.Operat
 	fsmReq, err := types.FSMRequestFromMessage(message)
 	if err != nil {
 		return nil, fmt.Errorf("failed to get FSMRequestFromMessage:  %w", err)
+	}
+
+	// the message is signed by message.SenderAddr: it may only speak for the
+	// participant that sender is registered as in this round
+	if fsm.Event(message.Event) != spf.EventInitProposal && !s.GetSkipCommKeysVerification() {
+		if err := checkSenderIsClaimedParticipant(fsmInstance, message.SenderAddr, fsmReq); err != nil {
+			return nil, fmt.Errorf("failed to verifyMessage %s from %s: %w", message.Event, message.SenderAddr, err)
+		}
 	}
 
 	resp, fsmDump, err := fsmInstance.Do(fsm.Event(message.Event), fsmReq)
